@@ -74,6 +74,7 @@ class VLoop(asyncio.BaseEventLoop):
         self.steps = 0
         self.timer_pops = 0
         self._in_running = False
+        self.timer_choices_enabled = True  # harness may switch tie exploration off for set-up phases
 
     # ---- clock / scheduling ---------------------------------------------------------
     def time(self):
@@ -162,7 +163,7 @@ class VLoop(asyncio.BaseEventLoop):
         if when0 > horizon:
             return False
         ent = None
-        if len(timers) > 1:
+        if len(timers) > 1 and self.timer_choices_enabled:
             lim = when0 + self.window
             cands = sorted(
                 (e for e in timers if e[0] <= lim and e[0] <= horizon and not e[2]._cancelled),
